@@ -470,14 +470,10 @@ Proof.
   induction fuel; intros s x I Hx Hf.
   - pose proof (i_w s I). cbn [tab_loop]. exfalso. lia.
   - cbn [tab_loop]. destruct (x <? width s - 1) eqn:C.
-    + pose proof (set_char_Keeps s [32] (fst (cur s)) (snd (cur s)) I) as Ks.
-      destruct (set_char s [32] (fst (cur s)) (snd (cur s))) as [s1|]; [|contradiction]. cbn [bind].
-      destruct Ks as (I1 & W1 & H1 & S1).
-      destruct (is_tabstop_ok s1 (x + 1) I1) as (b & Eb); [lia|]. rewrite Eb. cbn [bind].
+    + destruct (is_tabstop_ok s (x + 1) I) as (b & Eb); [lia|]. rewrite Eb. cbn [bind].
       destruct b.
-      * eexists _, _. split; [reflexivity|]. k_split; auto.
-      * destruct (IHfuel s1 (x + 1) I1) as (s' & x' & E' & K'); [lia|lia|].
-        rewrite E'. eexists _, _. split; [reflexivity|]. eapply K_trans; [|exact K']. k_split; auto.
+      * eexists _, _. split; [reflexivity|]. apply K_refl. assumption.
+      * apply IHfuel; [assumption|lia|lia].
     + eexists _, _. split; [reflexivity|]. apply K_refl. assumption.
 Qed.
 
@@ -509,23 +505,26 @@ Ltac cok :=
          | |- color_ok None _ = true => reflexivity
          end.
 
+Definition idx_ok (c : oz) (is_index : bool) : Prop :=
+  is_index = true -> match c with Some n => n < 256 | None => True end.
 Definition G_ok (g : sgi_t) : Prop :=
-  colors_ok (g_colors g) = true /\ color_ok (g_fg g) (g_colors g) = true /\ color_ok (g_bg g) (g_colors g) = true.
+  colors_ok (g_colors g) = true /\ color_ok (g_fg g) (g_colors g) = true /\ color_ok (g_bg g) (g_colors g) = true /\
+  idx_ok (g_fg g) (g_fgi g) /\ idx_ok (g_bg g) (g_bgi g).
 
 Lemma sgi_step1_ok a g : G_ok g -> G_ok (sgi_step1 a g).
 Proof.
-  destruct g as [fg bg colors bold ul blink so cs dc]. unfold G_ok, sgi_step1. cbn [g_colors g_fg g_bg].
-  intros (H1 & H2 & H3).
-  destruct fg as [fg|], bg as [bg|]; split_ifs; cbn [g_colors g_fg g_bg]; repeat split; cok; lia.
+  destruct g as [fg bg colors bold ul blink so cs dc fi bi]. unfold G_ok, sgi_step1, idx_ok. cbn [g_colors g_fg g_bg g_fgi g_bgi].
+  intros (H1 & H2 & H3 & H4 & H5).
+  destruct fg as [fg|], bg as [bg|]; split_ifs; cbn [g_colors g_fg g_bg g_fgi g_bgi]; repeat split; cok; auto; try lia.
 Qed.
 
-Lemma sgi_setcolor_ok a c nc g :
+Lemma sgi_setcolor_ok a c nc idx g :
   G_ok g -> 0 <= c -> colors_ok nc = true -> g_colors g <= nc ->
-  ((nc = 16777216 /\ c < 16777216) \/ (nc = 256 /\ c < 256)) -> G_ok (sgi_setcolor a c nc g).
+  ((nc = 16777216 /\ c < 16777216) \/ (nc = 256 /\ c < 256)) -> (idx = true -> c < 256) -> G_ok (sgi_setcolor a c nc idx g).
 Proof.
-  destruct g as [fg bg colors bold ul blink so cs dc]. unfold G_ok, sgi_setcolor. cbn [g_colors g_fg g_bg].
-  intros (H1 & H2 & H3) Hc Hn Hle Hr.
-  destruct fg as [fg|], bg as [bg|]; split_ifs; cbn [g_colors g_fg g_bg]; repeat split; cok; lia.
+  destruct g as [fg bg colors bold ul blink so cs dc fi bi]. unfold G_ok, sgi_setcolor, idx_ok. cbn [g_colors g_fg g_bg g_fgi g_bgi].
+  intros (H1 & H2 & H3 & H4 & H5) Hc Hn Hle Hr Hi.
+  destruct fg as [fg|], bg as [bg|]; split_ifs; cbn [g_colors g_fg g_bg g_fgi g_bgi]; repeat split; cok; auto; try lia.
 Qed.
 
 Lemma rgb_color_range r g b : 0 <= r -> 0 <= g -> 0 <= b -> 0 <= rgb_color r g b < 16777216.
@@ -553,7 +552,7 @@ Proof.
         apply IHn; [cbn [length] in *; lia|assumption|].
         pose proof (rgb_color_range c cg cb Hc Hcg Hcb).
         pose proof Hg as (G1 & _). apply colors_ok_iff in G1.
-        apply sgi_setcolor_ok; auto; try lia; try (cok; lia).
+        apply sgi_setcolor_ok; auto; try lia; try (cok; lia); try discriminate.
     + apply IHn; [lia|assumption|]. apply sgi_step1_ok. assumption.
 Qed.
 
@@ -567,6 +566,21 @@ Proof.
   destruct fg, bg; cbn [is_none andb]; repeat split; auto.
 Qed.
 
+(* the palette table holds 256 rgb values *)
+Lemma palette_table : zlen color_values_256_gen = 256 /\ forallb (fun v => (0 <=? v) && (v <? 16777216)) color_values_256_gen = true.
+Proof. split; vm_compute; reflexivity. Qed.
+
+Lemma palette_rgb_ok c i :
+  color_ok c 16777216 = true -> idx_ok c i ->
+  exists c', palette_rgb c i = Ok c' /\ color_ok c' 16777216 = true.
+Proof.
+  intros Hc Hi. destruct palette_table as [L F]. unfold palette_rgb. destruct c as [n|]; [|exists None; split; reflexivity].
+  destruct i; [|exists (Some n); split; [reflexivity|assumption]].
+  specialize (Hi eq_refl). cbv beta iota in Hi. cok.
+  destruct (get_index_ok color_values_256_gen n) as (v & E & Hin); [lia|]. rewrite E. cbn [bind].
+  exists (Some v). split; [reflexivity|]. rewrite forallb_forall in F. specialize (F v Hin). cok. lia.
+Qed.
+
 Lemma sgi_to_attrspec_ok s attrs fg bg b u k so pc :
   Inv s -> Forall (fun v => 0 <= v) attrs ->
   colors_ok pc = true -> color_ok fg pc = true -> color_ok bg pc = true ->
@@ -574,13 +588,28 @@ Lemma sgi_to_attrspec_ok s attrs fg bg b u k so pc :
 Proof.
   intros I Hp H1 H2 H3. unfold sgi_to_attrspec. cbv zeta.
   set (g := sgi_loop attrs _).
-  assert (G_ok g) as (G1 & G2 & G3).
-  { apply (sgi_loop_ok (length attrs)); auto. repeat split; assumption. }
-  match goal with |- context [mk_attrspec ?f _ _ _ _ _ _] => set (fg' := f) end.
+  assert (G_ok g) as (G1 & G2 & G3 & G4 & G5).
+  { apply (sgi_loop_ok (length attrs)); auto. unfold G_ok, idx_ok. cbn [g_colors g_fg g_bg g_fgi g_bgi].
+    repeat split; try assumption; intros Hi; apply negb_true_iff in Hi;
+      match goal with |- match ?c with _ => _ end => destruct c as [n|]; [|exact Logic.I] end; cok; lia. }
+  match goal with |- context [palette_rgb ?f (g_fgi g)] => set (fg' := f) end.
   assert (color_ok fg' (g_colors g) = true) as G2'.
   { subst fg'. destruct (g_fg g) as [f|]; [|reflexivity].
     destruct (g_bold g && (g_colors g =? 16) && (f <? 8)) eqn:C; [|assumption]. cok. lia. }
-  destruct (mk_attrspec_ok fg' (g_bg g) (g_colors g) (g_bold g) (g_ul g) (g_blink g) (g_so g) G1 G2' G3) as (a & E & A).
+  assert (exists fb, (if g_colors g =? 16777216
+                      then do fg'0 <- palette_rgb fg' (g_fgi g); do bg' <- palette_rgb (g_bg g) (g_bgi g); Ok (fg'0, bg')
+                      else Ok (fg', g_bg g)) = Ok fb /\
+                     color_ok (fst fb) (g_colors g) = true /\ color_ok (snd fb) (g_colors g) = true) as (fb & Efb & F1 & F2).
+  { destruct (g_colors g =? 16777216) eqn:C; [|exists (fg', g_bg g); auto].
+    apply Z.eqb_eq in C. rewrite C in *.
+    assert (idx_ok fg' (g_fgi g)) as G4'.
+    { subst fg'. destruct (g_fg g) as [f|]; [|intros _; exact Logic.I]. rewrite C.
+      replace (g_bold g && (16777216 =? 16) && (f <? 8)) with false by (rewrite andb_false_r; reflexivity). exact G4. }
+    destruct (palette_rgb_ok fg' (g_fgi g) G2' G4') as (c1 & E1 & C1).
+    destruct (palette_rgb_ok (g_bg g) (g_bgi g) G3 G5) as (c2 & E2 & C2).
+    rewrite E1, E2. cbn [bind]. exists (c1, c2). auto. }
+  rewrite Efb. cbn [bind].
+  destruct (mk_attrspec_ok (fst fb) (snd fb) (g_colors g) (g_bold g) (g_ul g) (g_blink g) (g_so g) G1 F1 F2) as (a & E & A).
   rewrite E. cbn [bind]. eexists _, _. split; [reflexivity|]. split; [|assumption].
   eapply K_trans; [apply with_cset_K; eassumption|]. apply with_modes_K. apply with_cset_K. assumption.
 Qed.
@@ -604,20 +633,15 @@ Lemma csi_set_attr_Keeps s attrs :
   Inv s -> 0 < zlen attrs -> Forall (fun v => 0 <= v) attrs -> Keeps s (csi_set_attr s attrs).
 Proof.
   intros I Hl Hp. unfold csi_set_attr.
-  destruct (get_index_last_ok attrs Hl) as (lst & E & _). rewrite E. cbn [bind].
-  set (s1 := if lst =? 0 then with_attrspec s None else s).
-  assert (K s s1) as K1.
-  { subst s1. destruct (lst =? 0); [apply with_attrspec_K; [assumption|exact Logic.I]|apply K_refl; assumption]. }
-  pose proof K1 as (I1 & _).
-  assert (exists s' a, match attrspec s1 with
-                       | Some a => sgi_to_attrspec s1 attrs (unbright a (a_fg a)) (unbright a (a_bg a)) (a_bold a) (a_ul a) (a_blink a) (a_so a) (a_colors a)
-                       | None => sgi_to_attrspec s1 attrs None None false false false false 1
-                       end = Ok (s', a) /\ K s1 s' /\ oattr_ok a) as (s' & a & E2 & K2 & A).
-  { pose proof (i_attr s1 I1) as A1. destruct (attrspec s1) as [a|].
+  assert (exists s' a, match attrspec s with
+                       | Some a => sgi_to_attrspec s attrs (unbright a (a_fg a)) (unbright a (a_bg a)) (a_bold a) (a_ul a) (a_blink a) (a_so a) (a_colors a)
+                       | None => sgi_to_attrspec s attrs None None false false false false 1
+                       end = Ok (s', a) /\ K s s' /\ oattr_ok a) as (s' & a & E2 & K2 & A).
+  { pose proof (i_attr s I) as A1. destruct (attrspec s) as [a|].
     - destruct A1 as (A1 & A2 & A3). apply sgi_to_attrspec_ok; auto using unbright_ok.
     - apply sgi_to_attrspec_ok; auto. }
   rewrite E2. cbn [bind]. pose proof K2 as (I2 & _).
-  eapply Keeps_trans; [exact K1|]. eapply Keeps_trans; [exact K2|].
+  eapply Keeps_trans; [exact K2|].
   destruct (m_reverse_video (modes s')); cbn [Keeps]; apply with_attrspec_K; auto.
   apply reverse_attrspec_ok. assumption.
 Qed.
